@@ -7,6 +7,11 @@ BASELINE = ("cd /repo && (cargo nextest run --workspace --no-fail-fast --tool-co
 
 # id -> (level, technique, level text, note, design ref)
 CHECKS = {
+ "C07": ("exploration",
+         "reference-model property-based testing: an independent counter over raw saphyr-parser events plus a replay model gives the usage U; limits U_c / U_c-1 probe threshold exactness; exhaustive prefix histories for per-document enforcement",
+         "For generated streams (anchors, aliases to containers, nested replay, merges) and a fixed enumeration of small documents: report == independent count, check_yaml_budget == raw count, every limit set to the usage is accepted and usage-1 is rejected with the matching breach at the first exceeding raw event, budgets >= usage never reject, ratio heuristic exact at its boundary; all prefix histories of length <= 3 (thorough 4) over 7 document kinds x 4 final documents x 7 lowered limits for per-document independence of the streaming iterator. Exploration over generated inputs and enumerated histories.",
+         "trusts the harness' usage model (DESIGN.md Appendix B, written from the Budget rustdoc); breach location is judged only for raw (non-replayed) events; whether the document-start event belongs to the per-document event count is not judged",
+         "DESIGN.md section 3 C07, Appendix B"),
  "C11": ("exploration",
          "model-based property testing: exhaustive sequences over 14 document kinds (length <= 3 / 4) + proptest longer streams; oracle = per-document results composed by a stream model",
          "All sequences of length <= 3 (thorough 4) over 14 document kinds with rotating text variants, end markers, trailing comments and CRLF, and random streams up to 8 documents, for an untyped and a typed target; batch (str, slice), the streaming iterator under three read chunkings, and the single-document entry points are compared with a model composed from each document parsed alone (skip empty/null, stop at syntax error, continue after type error, len+2 termination bound, anchors not visible across documents). Exploration over the enumerated space.",
